@@ -316,7 +316,8 @@ func CPUTime() time.Duration {
 }
 
 // Patience decides that something "does not return": it has run out when BOTH that much wall-clock
-// time has passed AND the process has consumed that much CPU time since it was started (or Reset).
+// time has passed AND the process has consumed that much CPU time since it was started (or Reset),
+// and this has been found so on several occasions (see patienceConfirmations).
 // Code that never returns spins or loops, so the CPU clock advances with it; a machine that is
 // stalled (a suspended or snapshotted VM, a badly overloaded host) advances the wall clock only,
 // and must never be mistaken for a hang.
@@ -324,16 +325,34 @@ type Patience struct {
 	d    time.Duration
 	wall time.Time
 	cpu  time.Duration
+	// confirmation: Expired reports true only after it has found both clocks past the limit
+	// on patienceConfirmations occasions at least a second apart
+	seen     int
+	lastSeen time.Time
 }
+
+// A suspended machine resumes with every clock far ahead (the guest even books the gap as CPU
+// time of whatever was running), but what was being waited for then completes at once. So running
+// out of patience has to be observed several times, a second apart, before it counts.
+const patienceConfirmations = 3
 
 func StartPatience(d time.Duration) *Patience {
 	return &Patience{d: d, wall: time.Now(), cpu: CPUTime()}
 }
 
-func (p *Patience) Reset() { p.wall, p.cpu = time.Now(), CPUTime() }
+func (p *Patience) Reset() {
+	p.wall, p.cpu, p.seen, p.lastSeen = time.Now(), CPUTime(), 0, time.Time{}
+}
 
 func (p *Patience) Expired() bool {
-	return time.Since(p.wall) >= p.d && CPUTime()-p.cpu >= p.d
+	if time.Since(p.wall) < p.d || CPUTime()-p.cpu < p.d {
+		return false
+	}
+	if now := time.Now(); p.seen == 0 || now.Sub(p.lastSeen) >= time.Second {
+		p.seen++
+		p.lastSeen = now
+	}
+	return p.seen >= patienceConfirmations
 }
 
 // After runs f (once, on its own goroutine) when the patience has run out, unless the returned
